@@ -201,6 +201,56 @@ class Emission:
                 out.append(step[0])
         return '.'.join(out) if out else 'self'
 
+    def star_of(self, s, itv, clos):
+        """symbol sequences one application of a try_for_each closure can emit; [] when the iterated collection is a constant empty slice"""
+        e = self.e
+        v = itv
+        for _ in range(4):
+            if v[0] == 'cref':
+                v = v[1]
+            elif v[0] == 'ref':
+                try:
+                    v = e.deref_value(s.state, v)
+                except Exception:
+                    break
+            elif v[0] == 'mut':
+                v = v[1]
+            else:
+                break
+        if v[0] == 'sliceiter' and v[1][0] == 'CONST':
+            return []
+        if v[0] == 'sliceiter' and v[1][0] == 'P' and v[1][1][0] == 'ref' and v[1][1][1][0] in ('MEM', 'STR') and not v[1][1][1][1]:
+            return []
+        if clos[0] != 'closure' or clos[1] not in self.prog.bodies:
+            self.problems.append('try_for_each with %s' % e.short(clos, 60))
+            return None
+        key = ('TFE', clos[1])
+        self.iter_src[key] = v
+        elem = ('ref', ('T', key, ('e', 'x', 0)))
+        st2 = s.state.copy()
+        n0 = len(st2.events)
+        try:
+            outs = e._run(st2, clos[1], [clos, elem], 2)
+        except Exception as ex:
+            self.problems.append('try_for_each closure: %s' % ex)
+            return None
+        seqs = []
+        for s3, rv in outs:
+            if rv == ('PANIC',):
+                self.problems.append('try_for_each closure can panic')
+                return None
+            if rv[0] == 'adt' and rv[2] == 'Err':
+                continue
+            fake = pxm.Segment(s.src, s.dst, s3, rv, s3.events[n0:], 'return')
+            sy = self.symbols(fake)
+            if sy is None:
+                return None
+            if any(not isinstance(x, (int, str)) for x in sy):
+                self.problems.append('nested repetition inside try_for_each')
+                return None
+            seqs.append(tuple(sy))
+        return sorted(set(seqs))
+
     # ---- symbols of one segment
     def symbols(self, s):
         """list of symbols (ints for literal bytes, strings '<role>' for values); None + problem when not understood"""
@@ -234,7 +284,18 @@ class Emission:
                 if nm is None:
                     self.problems.append('Display::fmt of %s' % e.short(args[0], 100))
                     return None
-                out.append('<%s>' % nm)
+                if nm == 'Language' and 'Language as std::fmt::Display' in name:
+                    # the nested printer of the language subtag is 'und' | text (its own grammar, checked separately): expand it, so that
+                    # an implementation that inlines `language.as_str()` yields the same automaton
+                    out.append(('ALT', ((0x75, 0x6E, 0x64), ('<%s>' % nm,))))
+                else:
+                    out.append('<%s>' % nm)
+            elif re.search(r'iter::Iterator::try_for_each$|as std::iter::Iterator>::try_for_each$', name) and len(args) == 2:
+                star = self.star_of(s, args[0], args[1])
+                if star is None:
+                    return None
+                if star:
+                    out.append(('STAR', tuple(star)))
             elif name.endswith('::write_fmt'):
                 a = args[1]
                 if a[0] == 'pure' and a[1].endswith('Arguments::<\'a>::from_str'):
@@ -307,7 +368,18 @@ class NFA:
         cur = a
         for i, sy in enumerate(syms):
             nxt = b if i == len(syms) - 1 else self.new()
-            self.add(cur, sy, nxt)
+            if isinstance(sy, tuple) and sy and sy[0] == 'ALT':
+                for alt in sy[1]:
+                    self.chain(cur, list(alt), nxt)
+            elif isinstance(sy, tuple) and sy and sy[0] == 'STAR':
+                m = self.new()
+                self.add(cur, None, m)
+                for seq in sy[1]:
+                    if seq:
+                        self.chain(m, list(seq), m)
+                self.add(m, None, nxt)
+            else:
+                self.add(cur, sy, nxt)
             cur = nxt
         if not syms:
             self.add(a, None, b)
@@ -403,5 +475,12 @@ def equivalent(A, B, limit=20000):
 def show(word):
     out = ''
     for s in word:
-        out += chr(s) if isinstance(s, int) else s
+        if isinstance(s, int):
+            out += chr(s)
+        elif isinstance(s, tuple) and s and s[0] == 'ALT':
+            out += '(' + '|'.join(show(a) for a in s[1]) + ')'
+        elif isinstance(s, tuple) and s and s[0] == 'STAR':
+            out += '(' + '|'.join(show(a) for a in s[1]) + ')*'
+        else:
+            out += str(s)
     return out
